@@ -150,6 +150,23 @@ def run(ctx):
             ctx.count("detect:tmax_after_record")
         elif v < 0.25:
             tmax = float(smp[-1] + rng.uniform(2, 50) * dur)
+        # limits that are exactly zero (0.0, -0.0, integer 0) on a record with pre-trigger samples, the largest sample lying
+        # on the excluded side: zero is a time like any other
+        z = rng.random()
+        if z < 0.25 and ns >= 4:
+            k0 = int(rng.integers(1, ns - 1))
+            t0z = -k0 * dt
+            fr = fixtures.make_frame(tr, t0z, dt, [0, 0], [0, 1], None, None)
+            smp = fr.time.samples
+            zero = [0.0, -0.0, 0][int(rng.integers(0, 3))]
+            if rng.random() < 0.5:
+                tmin, tmax = zero, (None if rng.random() < 0.5 else float(smp[-1]))
+                tr[:, int(rng.integers(0, k0))] = 50.0 * rng.choice([-1, 1])     # breakthrough before time zero
+            else:
+                tmin, tmax = (None if rng.random() < 0.5 else float(smp[0])), zero
+                tr[:, int(rng.integers(k0 + 1, ns))] = 50.0 * rng.choice([-1, 1])
+            fr = fixtures.make_frame(tr, t0z, dt, [0, 0], [0, 1], None, None)
+            ctx.count("detect:limit_exactly_zero")
         cj = {"op": "detect_surface_from_extrema", "samples": smp.tolist(), "trace": tr.tolist(), "tmin": tmin, "tmax": tmax}
         sel = np.ones(ns, dtype=bool)
         if tmin is not None:
